@@ -71,6 +71,8 @@ pub struct GenCfg {
     /// many calls of (multi-line) functions in the middle of expressions, after an operand: the story can then
     /// pause inside the function while the caller's operands wait on the evaluation stack
     pub call_mid_expression_boost: bool,
+    /// float globals that drift off their initial value by tiny and by ordinary amounts
+    pub floats: bool,
 }
 
 impl GenCfg {
@@ -120,6 +122,7 @@ impl GenCfg {
             layout_variants: false,
             allow_runout: false,
             call_mid_expression_boost: false,
+            floats: false,
         }
     }
     /// everything, including the nondeterministic-looking features (for lockstep oracles)
@@ -170,6 +173,12 @@ pub struct Builder<'a> {
     cur_labels: Vec<String>,
     in_function: bool,
     in_thread: bool,
+    /// labels of the depth-0 gathers written so far in the current knot / stitch
+    section_gathers: Vec<String>,
+    /// (knot, its bounce knot): the section being written may offer a way out to the bounce knot, which prints a line
+    /// and comes straight back (the knot is then re-entered from outside, in the same turn, right after a line end)
+    bounce: Option<(String, String)>,
+    extra_knots: Vec<Knot>,
 }
 
 const WORDS: &[&str] = &[
@@ -197,6 +206,9 @@ pub fn generate(cfg: &GenCfg, rng: &mut Rng) -> (Program, Meta) {
         cur_labels: Vec::new(),
         in_function: false,
         in_thread: false,
+        section_gathers: Vec::new(),
+        bounce: None,
+        extra_knots: Vec::new(),
     };
     let p = b.program();
     (p, b.meta)
@@ -252,6 +264,10 @@ impl<'a> Builder<'a> {
         }
         if cfg.divert_global {
             p.globals.push(("gd".into(), Expr::Target("kz".into())));
+        }
+        if cfg.floats {
+            p.globals.push(("gf0".into(), Expr::Float(1.0)));
+            p.globals.push(("gf1".into(), Expr::Float(0.0)));
         }
         if cfg.lists {
             let nl = 1 + self.rng.below(2);
@@ -399,6 +415,7 @@ impl<'a> Builder<'a> {
             let plan = self.plans[i].clone();
             self.cur_knot = i;
             self.cur_labels.clear();
+            self.section_gathers.clear();
             self.scope = plan.params.clone();
             self.in_function = plan.kind == KnotKind::Function;
             self.in_thread = plan.kind == KnotKind::Thread;
@@ -426,6 +443,7 @@ impl<'a> Builder<'a> {
                 self.meta.labels.push(plan.name.clone());
             }
         }
+        p.knots.append(&mut self.extra_knots);
         p
     }
 
@@ -451,6 +469,10 @@ impl<'a> Builder<'a> {
         }
         if self.cfg.choice_count && self.rng.chance(1, 6) {
             opts.push(Expr::ChoiceCount);
+        }
+        if self.cfg.layout_variants && self.cfg.turns_since && !self.in_function && !self.meta.flow_knots.is_empty() && self.rng.chance(1, 8) {
+            // also inside conditions (of choices, branches, inline conditionals)
+            opts.push(Expr::TurnsSince(self.rng.pick(&self.meta.flow_knots.clone()).clone()));
         }
         let i = self.rng.below(opts.len());
         opts.swap_remove(i)
@@ -630,6 +652,12 @@ impl<'a> Builder<'a> {
     }
 
     fn assign_global(&mut self) -> Stmt {
+        if self.cfg.floats && self.rng.chance(1, 5) {
+            let g = if self.rng.chance(1, 2) { "gf0" } else { "gf1" };
+            let d = *self.rng.pick(&[0.00000005f32, 0.00000005, 0.0000001, 0.5, 0.25]);
+            let op = *self.rng.pick(&[BinOp::Add, BinOp::Sub]);
+            return Stmt::Assign { temp_decl: false, name: g.into(), op: AssignOp::Set, expr: Expr::Bin(Box::new(Expr::Var(g.into())), op, Box::new(Expr::Float(d))) };
+        }
         match self.rng.below(6) {
             0 if self.cfg.strings && !self.meta.str_globals.is_empty() => Stmt::Assign {
                 temp_decl: false,
@@ -745,6 +773,13 @@ impl<'a> Builder<'a> {
                     let t = self.text();
                     v.push(Stmt::Line(vec![Inline::Text(format!("{t} ")), Inline::Expr(e)], None));
                 }
+                continue;
+            }
+            if self.cfg.floats && self.rng.chance(1, 10) {
+                let t = self.text();
+                let (a, b) = (self.text(), self.text());
+                v.push(Stmt::Line(vec![Inline::Text(format!("{t} ")), Inline::Cond(Expr::Bin(Box::new(Expr::Var("gf0".into())), BinOp::Lt, Box::new(Expr::Float(1.0))), vec![Inline::Text(a)], Some(vec![Inline::Text(b)])),
+                    Inline::Text(" ".into()), Inline::Cond(Expr::Bin(Box::new(Expr::Var("gf1".into())), BinOp::Gt, Box::new(Expr::Float(0.0))), vec![Inline::Text("up".into())], Some(vec![Inline::Text("flat".into())]))], None));
                 continue;
             }
             match self.rng.below(16) {
@@ -975,9 +1010,17 @@ impl<'a> Builder<'a> {
     /// One weave section at `depth`: content, a choice group, a gather. `exit` = where flow must go afterwards.
     fn weave(&mut self, flow_idx: usize, depth: usize, externals: &[External], loops: bool, self_name: &str) -> Vec<Stmt> {
         let cfg = self.cfg;
-        let n = cfg.run_len.0 + self.rng.below(cfg.run_len.1 - cfg.run_len.0 + 1);
+        let mut n = cfg.run_len.0 + self.rng.below(cfg.run_len.1 - cfg.run_len.0 + 1);
+        // sometimes the choices come first: whatever their conditions read (turn and visit counters of the knot just
+        // entered, CHOICE_COUNT) is then evaluated straight after the divert that led here, i.e. while the engine is
+        // still deciding whether the previous line is over
+        let choices_first = cfg.layout_variants && depth == 0 && !self.in_function && self.rng.chance(1, 5);
+        if choices_first {
+            n = 0;
+        }
         let mut v = self.content_run(externals, n);
         let nchoices = 1 + self.rng.below(3);
+        let first_choice_at = v.len();
         let mut any_sticky = false;
         for ci in 0..nchoices {
             let sticky = cfg.sticky && self.rng.chance(1, 4);
@@ -989,7 +1032,12 @@ impl<'a> Builder<'a> {
                 None
             };
             let mut conds = Vec::new();
-            if self.rng.chance(1, 4) && ci > 0 {
+            if choices_first && ci > 0 && self.plans[self.cur_knot].kind == KnotKind::Flow && cfg.turns_since && self.rng.chance(1, 2) {
+                let me = self.plans[self.cur_knot].name.clone();
+                let probe = if self.rng.chance(1, 2) { Expr::TurnsSince(me) } else { Expr::ReadCount(me) };
+                let op = *self.rng.pick(&[BinOp::Eq, BinOp::Le, BinOp::Gt, BinOp::Ne]);
+                conds.push(Expr::Bin(Box::new(probe), op, Box::new(Expr::Int(self.rng.below(3) as i32))));
+            } else if self.rng.chance(1, 4) && ci > 0 {
                 conds.push(self.bool_expr(1));
                 if self.cfg.layout_variants && self.rng.chance(1, 4) {
                     conds.push(self.bool_expr(0));
@@ -1095,9 +1143,54 @@ impl<'a> Builder<'a> {
                 body,
             }));
         }
+        if depth == 0
+            && let Some((knot, kb)) = self.bounce.clone()
+            && self.rng.chance(2, 3)
+        {
+            // out to the bounce knot and back: bounded by the knot's own read count
+            let t = self.text();
+            let probe = if self.rng.chance(1, 2) {
+                Expr::Bin(Box::new(Expr::TurnsSince(knot.clone())), BinOp::Eq, Box::new(Expr::Int(0)))
+            } else {
+                Expr::Bin(Box::new(Expr::ReadCount(knot.clone())), BinOp::Ge, Box::new(Expr::Int(1)))
+            };
+            let bound = Expr::Bin(Box::new(Expr::ReadCount(knot.clone())), BinOp::Lt, Box::new(Expr::Int(3 + self.rng.below(2) as i32)));
+            let ch = Stmt::Choice(Choice { sticky: true, label: None, conds: vec![bound, probe], start: vec![], choice_only: Some(vec![Inline::Text(t)]), end: vec![], divert: None, body: vec![Stmt::Divert(Target::Named(kb))] });
+            // first or last among the choices of this group
+            if self.rng.chance(1, 2) { v.insert(first_choice_at, ch) } else { v.push(ch) }
+        }
+        // a way back to an earlier labelled gather of this section: `+ {label < 3} [again] -> label`, kept company by
+        // an unconditional sticky choice so that the section never runs dry
+        if cfg.layout_variants && depth == 0 && !self.in_thread && !self.in_function && !self.section_gathers.is_empty() && self.rng.chance(1, 2) {
+            let label = self.rng.pick(&self.section_gathers.clone()).clone();
+            let t = self.text();
+            v.push(Stmt::Choice(Choice {
+                sticky: true,
+                label: None,
+                conds: vec![Expr::Bin(Box::new(Expr::ReadCount(label.clone())), BinOp::Lt, Box::new(Expr::Int(2 + self.rng.below(2) as i32)))],
+                start: vec![],
+                choice_only: Some(vec![Inline::Text(t)]),
+                end: vec![],
+                divert: None,
+                body: vec![Stmt::Divert(Target::Named(label))],
+            }));
+            let t = self.text();
+            v.push(Stmt::Choice(Choice { sticky: true, label: None, conds: vec![], start: vec![Inline::Text(t)], choice_only: None, end: vec![], divert: None, body: vec![] }));
+        }
+        // a fallback may be written before the visible choices: it is generated first and still stays invisible
+        if cfg.layout_variants && self.rng.chance(1, 3)
+            && let Some(pos) = v.iter().rposition(|s| matches!(s, Stmt::Choice(c) if c.is_fallback() && c.divert.is_none()))
+            && pos > first_choice_at
+        {
+            let f = v.remove(pos);
+            v.insert(first_choice_at, f);
+        }
         // gather
         let glabel = if cfg.labels && self.rng.chance(1, 3) {
             let l = format!("g{}", self.marker());
+            if depth == 0 {
+                self.section_gathers.push(l.clone());
+            }
             self.cur_labels.push(l.clone());
             self.meta.labels.push(format!("{}.{}", self.scope_path(), l));
             Some(l)
@@ -1131,6 +1224,14 @@ impl<'a> Builder<'a> {
         for (si, (path, _)) in sections.iter().enumerate() {
             self.cur_scope = path.clone();
             self.cur_labels.clear();
+            self.section_gathers.clear();
+            self.bounce = None;
+            if si == 0 && plan.loops && self.cfg.layout_variants && self.rng.chance(1, 2) {
+                let kb = format!("kb{flow_idx}");
+                let t = self.text();
+                self.extra_knots.push(Knot { name: kb.clone(), kind: KnotKind::Flow, params: vec![], body: vec![Stmt::Line(vec![Inline::Text(t)], None), Stmt::Divert(Target::Named(plan.name.clone()))], stitches: vec![] });
+                self.bounce = Some((plan.name.clone(), kb));
+            }
             self.scope = plan.params.clone();
             let mut body = Vec::new();
             // temps first so they are in scope on every path
